@@ -85,7 +85,9 @@ def rational_rotation(rng, d, small=False):
     """exact rotation matrix with rational entries (rows of Fractions); small=True: an angle of about 2-6 degrees
     (a rotation that a loose `allclose(R, identity)` shortcut would mistake for the identity)"""
     if d == 2:
-        if small:
+        if small == "tiny":        # 0.04 .. 0.25 degrees: inside every default `isclose` tolerance, still a rotation
+            a, b = int(rng.integers(450, 3000)), int(rng.choice([-1, 1]))
+        elif small:
             a, b = int(rng.integers(20, 61)), int(rng.choice([-1, 1]))
         else:
             a, b = (int(x) for x in rng.integers(-6, 7, size=2))
@@ -94,7 +96,7 @@ def rational_rotation(rng, d, small=False):
         n = a * a + b * b
         return [[Fraction(a * a - b * b, n), Fraction(-2 * a * b, n)], [Fraction(2 * a * b, n), Fraction(a * a - b * b, n)]]
     if small:
-        w = int(rng.integers(20, 41))
+        w = int(rng.integers(800, 3000)) if small == "tiny" else int(rng.integers(20, 41))
         x, y, z = (int(v) for v in rng.integers(-1, 2, size=3))
         if x == y == z == 0:
             z = 1
@@ -1425,6 +1427,9 @@ def gen_linear(ctx, rng, n):
         d = 2 if i % 3 else 3
         shape = tuple(int(v) for v in rng.integers(3, 8 if d == 2 else 6, size=d))
         small = bool(i % 5 == 4)
+        if i % 10 == 9:
+            small = "tiny"
+            shape = tuple(int(v) for v in rng.integers(8, 14 if d == 2 else 10, size=d))
         R = rational_rotation(rng, d, small=small)
         t = [Fraction(int(v), 4) for v in rng.integers(-6, 7, size=d)] if rng.random() < 0.7 else [Fraction(0)] * d
         geo = bool(i % 4 != 3)
